@@ -204,6 +204,16 @@ impl MuxStream {
                 self.writer_waker.register(cx.waker());
                 #[cfg(all(penguin_rs_verif, feature = "std"))]
                 self.verif_emit(crate::verif::Kind::WakerRegistered);
+                // An `Acknowledge` or a close may have slipped in between the checks
+                // above and the registration of our waker. Their `wake()` found no
+                // waker then and nobody would ever wake us, so look again.
+                if self.finish_sent.load(Ordering::Acquire) {
+                    debug!("stream has been closed, returning `BrokenPipe`");
+                    return Poll::Ready(None);
+                }
+                if self.psh_send_remaining.load(Ordering::Acquire) != 0 {
+                    continue;
+                }
                 // Since all writes start with `poll_flush`, we don't need to
                 // flush here. There is actually no way to `poll_flush` without
                 // magic.
